@@ -112,6 +112,10 @@ class KindAdapter(Adapter):
         if self.kind == "seq_new" and anoms == ["differs[json]:features"]:
             # documented in Sequence.to_rich_dict: the annotation db is not part of the new-style sequence's serialisation
             return "seq_new:json:annotation_db-not-serialised"
+        if self.kind == "seq_new" and act == "Apply" and args[0] == "to_rna" and "to_rna" in f["hist"] and anoms and anoms[0].startswith("differs[pickle]") and "str" not in anoms[0]:
+            # a no-op conversion (rna -> rna) on an unpickled copy takes the converting path (its moltype is not the
+            # singleton any more) and re-bases the view: same string, different coordinates / feature mapping
+            return "seq_new:pickle:noop-conversion-rebases-the-copy"
         if self.kind == "tree" and "bifurcating" in hist and anoms and anoms[0].startswith("differs[json]"):
             return "tree:json:unnamed-node-from-bifurcating:" + anoms[0].split(":", 1)[1]
         return f"{self.kind}:{method}:state={pre}:{('then=' + post + ':') if post else ''}{anom}"
